@@ -63,6 +63,15 @@ pub proof fn lemma_tod(t: int)
         hms_ok(tod_h(t), tod_mi(t), tod_s(t), tod_us(t)),
         hms_us(tod_h(t), tod_mi(t), tod_s(t), tod_us(t)) == t,
 {
+    vstd::arithmetic::div_mod::lemma_mod_mod(t, 60_000_000, 60);
+    vstd::arithmetic::div_mod::lemma_mod_mod(t, 1_000_000, 60);
+    let r1 = t % 3_600_000_000;
+    let r2 = t % 60_000_000;
+    vstd::arithmetic::div_mod::lemma_fundamental_div_mod(t, 3_600_000_000);
+    vstd::arithmetic::div_mod::lemma_fundamental_div_mod(r1, 60_000_000);
+    vstd::arithmetic::div_mod::lemma_fundamental_div_mod(r2, 1_000_000);
+    assert(r1 % 60_000_000 == r2);
+    assert(r2 % 1_000_000 == t % 1_000_000);
 }
 
 pub proof fn lemma_hms_unique(h: int, mi: int, s: int, us: int)
@@ -74,6 +83,14 @@ pub proof fn lemma_hms_unique(h: int, mi: int, s: int, us: int)
         tod_s(hms_us(h, mi, s, us)) == s,
         tod_us(hms_us(h, mi, s, us)) == us,
 {
+    let t = hms_us(h, mi, s, us);
+    vstd::arithmetic::div_mod::lemma_fundamental_div_mod_converse(t, 3_600_000_000, h, mi * 60_000_000 + s * 1_000_000 + us);
+    vstd::arithmetic::div_mod::lemma_fundamental_div_mod_converse(mi * 60_000_000 + s * 1_000_000 + us, 60_000_000, mi, s * 1_000_000 + us);
+    assert(t == (h * 60 + mi) * 60_000_000 + (s * 1_000_000 + us)) by (nonlinear_arith) requires t == h * 3_600_000_000 + mi * 60_000_000 + s * 1_000_000 + us;
+    vstd::arithmetic::div_mod::lemma_fundamental_div_mod_converse(t, 60_000_000, h * 60 + mi, s * 1_000_000 + us);
+    vstd::arithmetic::div_mod::lemma_fundamental_div_mod_converse(s * 1_000_000 + us, 1_000_000, s, us);
+    assert(t == ((h * 60 + mi) * 60 + s) * 1_000_000 + us) by (nonlinear_arith) requires t == h * 3_600_000_000 + mi * 60_000_000 + s * 1_000_000 + us;
+    vstd::arithmetic::div_mod::lemma_fundamental_div_mod_converse(t, 1_000_000, (h * 60 + mi) * 60 + s, us);
 }
 
 // weekday number, Sunday = 1 .. Saturday = 7; day number 0 (1970-01-01) is a Thursday (5)
